@@ -26,7 +26,7 @@ func c14Fill(m *gera.WrapMap[string, string], name string) c14Def {
 // What each template-evaluation stage of a role can see (fields.go): the parent's whole stack always; the
 // role's own defaults from stage 2, own vars from stage 3, own user vars from stage 4; locals always and
 // above everything. Ranking inside what is visible is the usual one.
-//verif:entry HarnessStageVisibility unwind=10 reach=local,own,parent,undefined replace=dario.cat/mergo.Merge=>C14MergeModel
+//verif:entry HarnessStageVisibility unwind=10 conform=12 reach=local,own,parent,undefined replace=dario.cat/mergo.Merge=>C14MergeModel
 func HarnessStageVisibility() {
 	own := [3]*gera.WrapMap[string, string]{gera.MakeMap[string, string](), gera.MakeMap[string, string](), gera.MakeMap[string, string]()}
 	par := [3]*gera.WrapMap[string, string]{gera.MakeMap[string, string](), gera.MakeMap[string, string](), gera.MakeMap[string, string]()}
